@@ -59,7 +59,7 @@ Definition spec_ok (proj : list str) (es : list entry) (ires : res)
                          end)
                (spec_copied proj [] top ++ spec_copydirs proj [] top)
     && forallb (fun pf => match snd pf with
-                          | Copy q => path_eqb (fst pf) q && path_in q (flat_map all_files es)
+                          | Copy q => path_eqb (fst pf) q && path_in q (spec_may_copy proj [] top)
                           | Page src => existsb (page_eqb (src, fst pf)) ip
                           end) ifiles
   end.
